@@ -877,6 +877,19 @@ pub fn apply(op: usize, s: &mut TypeSpec, d: &mut Dna) -> Option<Fault> {
                         a.params.retain(|(p, _)| !matches!(p, TParam::Name(_)));
                     }
                     let units: Vec<usize> = (0..nv).filter(|i| s.variants[*i].shape == Shape::Unit || s.variants[*i].fields.is_empty()).collect();
+                    // a variant whose fields are all ignored has nothing to print either
+                    let with_fields: Vec<usize> = (0..nv).filter(|i| !s.variants[*i].fields.is_empty()).collect();
+                    if !with_fields.is_empty() && (units.is_empty() || d.chance(40)) {
+                        let vi = *d.choose(&with_fields);
+                        let v = &mut s.variants[vi];
+                        for f in v.fields.iter_mut() {
+                            f.attrs.retain(|a| a.tr != Tr::Debug);
+                            f.attrs.push(FAttr { tr: Tr::Debug, into_ty: None, params: vec![(FParam::Ignore(true), d.byte())], sp: d.byte() });
+                        }
+                        v.attrs.retain(|a| a.tr != Tr::Debug);
+                        v.attrs.push(TAttr { tr: Tr::Debug, into_ty: None, params: vec![(TParam::Name(NameV::False), d.byte())], sp: 0 });
+                        return mk(14, format!("nameless variant {vi} whose fields are all ignored, without an enum name"), format!("variant-all-ignored/{}/Debug", pos_class(vi, nv)));
+                    }
                     if units.is_empty() {
                         return None;
                     }
